@@ -25,7 +25,7 @@ FUNCS = [
     "acnportal.acnsim.models.battery.Battery.__init__", "acnportal.acnsim.models.ev.EV.__init__",
 ]
 ASSUMPTIONS = [
-    "documents carry aware datetimes in a zone with a whole-hour UTC offset (job parameter, -8 ... +9 h), the simulation start is given in UTC; instants are whole seconds >= 0 (what ACN-Data delivers); datetime.timestamp() is that integer; Python floats modelled as exact reals, so int(ts / (60*period)) is the exact floor of the quotient (the IEEE counterpart - floor(fl(a/d)) == a div d for a < 2^53, d <= 2^21 - is discharged as a separate floating-point query in the thorough tier)",
+    "documents carry aware datetimes in a zone with a whole-hour UTC offset (job parameter, -8 ... +9 h), the simulation start is given in UTC; instants are whole seconds >= 0 (what ACN-Data delivers); datetime.timestamp() is that integer; Python floats modelled as exact reals, so int(ts / (60*period)) is the exact floor of the quotient (the IEEE counterpart - floor(fl(a/d)) == a div d for a < 2^53, d <= 2^21 - is discharged by cvc5 as separate floating-point queries, one per period, in the thorough tier)",
     "period in {1, 5, 15, 60} minutes (concrete per job); disconnect >= connect; energies, powers, max_len symbolic",
     "stochastic converter: max_len is compared with the duration in the unit the existing test suite pins (hours) although the docstring says periods; the duration handed to capacity_fn is in hours there and in periods in acndata_events - recorded, not judged (the statement's last sentence concerns the fit function itself)",
     "capacity fit: only the closed-form branch (initial SoC at or above the transition SoC) is claimed; paths that enter the binary search (recursion whose depth depends on a transcendental residual) are cut and counted as outside the claim; voltage, period and stay are concrete per job, the request is symbolic; exp of a concrete argument is numpy's double (compared with 1e-9 relative slack)",
@@ -346,38 +346,63 @@ def h_fit(cx, voltage, period, stay, sym_voltage):
     cx.observe("delivered", total)
 
 
-def h_fp_lemma(cx, width):
-    """IEEE-754 counterpart of the exact-real model: for integers 0 <= a < 2^width and 1 <= d <= 2^12,
-    floor(fl(a) / fl(d)) == a div d  (so int(ts / (60*period)) is the period index for whole-second timestamps)."""
-    if cx.mode == "conc":
-        a = cx.int("a", 0, 2 ** width - 1)
-        d = cx.int("d", 1, 2 ** 12)
-        cx.check("floor(fl(a/d))==a div d", int(float(a) / float(d)) == a // d)
-        cx.observe("q", a // d)
-        return
+def h_fp_lemma(cx, d, width):
+    """IEEE-754 counterpart of the exact-real model: for every integer 0 <= a < 2^width,  floor(fl(a) / fl(d)) == a div d  for the
+    constant d = 60 * period - so int(ts / (60*period)) is the period index for whole-second timestamps.  Decided by cvc5 (QF_BVFP,
+    the pre-installed binary); z3 needs > 4 min per divisor."""
     a = cx.int("a", 0, 2 ** width - 1)
-    d = cx.int("d", 1, 2 ** 12)
+    cx.observe("q", a // d)
+    if cx.mode == "conc":
+        cx.check("floor(fl(a/d))==a div d", int(float(a) / float(d)) == a // d)
+        return
+    import os
+    import shutil
+    import subprocess
+    import tempfile
     import time as _t
 
     t0 = _t.time()
-    s = z3.Solver()
-    s.set("timeout", 600000)
-    abv, dbv = z3.BitVec("a", 64), z3.BitVec("d", 64)
-    fa = z3.fpSignedToFP(z3.RNE(), abv, z3.Float64())
-    fd = z3.fpSignedToFP(z3.RNE(), dbv, z3.Float64())
-    qf = z3.fpDiv(z3.RNE(), fa, fd)
-    qi = z3.fpToSBV(z3.RTZ(), qf, z3.BitVecSort(64))
-    s.add(z3.ULT(abv, z3.BitVecVal(2 ** width, 64)), z3.UGE(dbv, 1), z3.ULE(dbv, 2 ** 12))
-    s.add(qi != z3.UDiv(abv, dbv))
-    r = s.check()
-    st = {z3.unsat: "unsat", z3.sat: "sat"}.get(r, "unknown")
-    asg = None
-    if r == z3.sat:
-        m = s.model()
-        asg = {"a": m.eval(abv).as_long(), "d": m.eval(dbv).as_long()}
-    cx.obligations.append(core.Obligation("floor(fl(a/d))==a div d", st, asg, "QF_FPBV query, a < 2^%d, d <= 2^12" % width, _t.time() - t0))
+    smt = """(set-logic QF_BVFP)
+(declare-const a (_ BitVec 64))
+(assert (bvult a (_ bv%d 64)))
+(define-fun fa () (_ FloatingPoint 11 53) ((_ to_fp 11 53) RNE a))
+(define-fun fd () (_ FloatingPoint 11 53) ((_ to_fp 11 53) RNE (_ bv%d 64)))
+(assert (not (= ((_ fp.to_sbv 64) RTZ (fp.div RNE fa fd)) (bvudiv a (_ bv%d 64)))))
+(check-sat)
+""" % (2 ** width, d, d)
+    status, asg, detail = "unknown", None, None
+    exe = shutil.which("cvc5")
+    if exe is None:
+        detail = "cvc5 binary not found"
+    else:
+        fd_, path = tempfile.mkstemp(suffix=".smt2")
+        try:
+            with os.fdopen(fd_, "w") as f:
+                f.write(smt)
+            r = subprocess.run([exe, "--produce-models", path], capture_output=True, text=True, timeout=900)
+            out = r.stdout.strip().splitlines()
+            detail = "cvc5: " + " ".join(out)[:120]
+            if "(error" in r.stdout or "(error" in r.stderr:
+                status = "unknown"
+            elif out and out[0] == "unsat":
+                status = "unsat"
+            elif out and out[0] == "sat":
+                import re as _re
+
+                with open(path, "a") as f:
+                    f.write("(get-value (a))\n")
+                r = subprocess.run([exe, "--produce-models", path], capture_output=True, text=True, timeout=900)
+
+                m = _re.search(r"#x([0-9a-fA-F]+)|#b([01]+)", r.stdout)
+                if m:
+                    asg = {"a": int(m.group(1), 16) if m.group(1) else int(m.group(2), 2)}
+                    status = "sat"
+        except subprocess.TimeoutExpired:
+            detail = "cvc5 timed out after 900 s"
+        finally:
+            os.unlink(path)
+    cx.obligations.append(core.Obligation("floor(fl(a/d))==a div d", status, asg, detail, _t.time() - t0))
     cx.nchecks += 1
-    cx.observe("q", a // d)
 
 
 def jobs(tier):
@@ -401,6 +426,7 @@ def jobs(tier):
         js.append(Job("fit[V=%s,period=%d,stay=%d]" % ("sym" if sv else V, p, s), h_fit, dict(voltage=V, period=p, stay=s, sym_voltage=sv), functions=FUNCS, timeout=1800, approx=sv,
                       bounds=dict(voltage="symbolic in [100,500]" if sv else V, period=p, stay_periods=s, request="symbolic in (0,100] kWh", branch="closed form only"), cost=20 if sv else 3))
     if not q:
-        js.append(Job("fp_lemma[a<2^32]", h_fp_lemma, dict(width=32), functions=["IEEE-754 double division vs integer division (lemma behind the exact-real model of int(ts/(60*period)))"], timeout=1500,
-                      bounds=dict(a="< 2^32 (seconds since the epoch until 2106)", d="<= 4096 (60*period for period <= 68 min)"), cost=100))
+        for period in (1, 5, 15, 60):
+            js.append(Job("fp_lemma[period=%d,a<2^32]" % period, h_fp_lemma, dict(d=60 * period, width=32), functions=["IEEE-754 double division vs integer division (lemma behind the exact-real model of int(ts/(60*period)))"],
+                          timeout=1500, bounds=dict(a="< 2^32 (seconds since the epoch until 2106)", d=60 * period, solver="cvc5 binary, QF_BVFP"), cost=100))
     return js
